@@ -463,7 +463,8 @@ func init() {
 			"cab.Header.NumFolders":        "nfolders",
 			"cab.ReserveHeader.HeaderSize": "rh_header", "cab.ReserveHeader.FolderSize": "rh_folder", "cab.ReserveHeader.DataSize": "rh_data",
 			"cab.SignatureHeader.CabinetSize": "sh_cabsize", "padding": "padding", "v": "v", "addOffset": "add_offset", "i": "i",
-			"outHeader.Flags": "flags",
+			"outHeader.Flags": "flags", "hdrEnd": "hdr_end",
+			"binary.Size(cab.Header)": "cabh_size", "binary.Size(FolderHeader{})": "cabfh_size",
 		}
 		dg := func(name, params, ret string) funcSpec {
 			return funcSpec{dir: d, recv: "", name: "Digest", coqName: name, params: params, retType: ret, leaves: dl}
@@ -480,6 +481,11 @@ func init() {
 		o.fcCompound(dg("cab_offset_add_reserve", "(add_offset : Z)", "Z"), "addOffset", 1)
 		o.fcCond(dg("cab_multipart", "(flags : Z)", "bool"), "FlagPrevCabinet")
 		o.fcCond(dg("cab_unsupported_flags", "(flags : Z)", "bool"), "Flags&^FlagReservePresent")
+		// guard added by relic commit 6b49488: the folder table must end at coffFiles and coffFiles <= cbCabinet
+		o.fcAssign(dg("cab_hdr_end", "(nfolders : Z)", "Z"), "hdrEnd", 0)
+		o.fcCond(dg("cab_hdr_end_has_reserve", "(flags : Z)", "bool"), "Flags&FlagReservePresent", 1)
+		o.fcCompound(dg("cab_hdr_end_reserve", "(hdr_end rh_header : Z)", "Z"), "hdrEnd", 0)
+		o.fcCond(dg("cab_bad_layout", "(offiles hdr_end total : Z)", "bool"), "if:int64(cab.Header.OffsetFiles)")
 		o.fcCompound(dg("cab_out_flags", "(flags : Z)", "Z"), "outHeader.Flags", 0)
 		o.fcCond(dg("cab_more_folders", "(i nfolders : Z)", "bool"), "for:cab.Header.NumFolders")
 		o.fcCallArg(dg("cab_data_len", "(total offiles : Z)", "Z"), "io.CopyN", 0, 2)
@@ -599,8 +605,10 @@ func init() {
 		rs := func(name, params, ret string) funcSpec {
 			return funcSpec{dir: x, recv: "", name: "removeSignature", coqName: name, params: params, retType: ret, leaves: rl}
 		}
+		// guard added by relic commit f898997: a blob shorter than a trailer is returned as it is
+		o.condOf(rs("xap_rm_too_short", "(size : Z)", "bool"), "if:size", 0)
 		o.fcSliceLow(rs("xap_rm_trailer_start", "(size : Z)", "Z"), "cd")
-		o.condOf(rs("xap_rm_has_trailer", "(tr_magic : Z)", "bool"), "tr.Magic")
+		o.condOf(rs("xap_rm_has_trailer", "(tr_magic tr_size size : Z)", "bool"), "tr.Magic")
 		o.fcCompound(rs("xap_rm_new_size", "(size tr_size : Z)", "Z"), "size", 0)
 		sl := map[string]string{"len(ts.Raw)": "raw_len", "d.PatchStart": "patch_start", "d.PatchLen": "patch_len"}
 		sg := func(name, params, ret string) funcSpec {
